@@ -203,6 +203,23 @@ func init() {
 			}
 			return out
 		},
+		Thorough: func() []eng.Instance {
+			var is []eng.Instance
+			for i, n := range []string{"Delete", "GetAndDelete", "DeleteExpired", "Range"} {
+				is = append(is, eng.Instance{Name: "C13/Cache/reenter/" + n, Pkg: "cache", Func: "VxH_C13_reenter", Args: []int64{int64(i)}, Cfg: eng.Config{DefaultUnwind: 9}})
+			}
+			var out []eng.Instance
+			for _, in := range withOf(is) {
+				if in.Name == "C13/CacheOf/reenter/Range" {
+					continue
+				}
+				out = append(out, in)
+			}
+			// deadlock / lost wake-up queries: writers that meet a Clear (resize flag, resizeMu, resizeCond) and each other
+			out = append(out, mapPar2("C13/Map/deadlock", "VxH_Map_par2", [][2]int{{8, 1}, {8, 7}, {8, 8}, {1, 1}}, []int64{1, 1, 1, 1}, 2)...)
+			out = append(out, mapPar2("C13/MapOf/deadlock", "VxH_MapOf_par2", [][2]int{{8, 1}, {8, 7}, {8, 8}, {1, 1}, {1, 7}}, []int64{1, 1, 1, 1, 2}, 2)...)
+			return out
+		},
 	})
 }
 
@@ -222,6 +239,17 @@ func init() {
 					if v >= 2 && m >= 2 {
 						continue
 					}
+					is = append(is, eng.Instance{Name: fmt.Sprintf("C09/Cache/%s/%s", vn[v], mn[m]), Pkg: "cache", Func: "VxH_C09_ctor", Args: []int64{int64(v), int64(m)}, Cfg: eng.Config{DefaultUnwind: 6, SmallTables: 1}})
+				}
+			}
+			return withOf(is)
+		},
+		Thorough: func() []eng.Instance {
+			var is []eng.Instance
+			vn := []string{"New+opts", "NewDefault", "New()", "New+opts-reordered"}
+			mn := []string{"Set", "GetAndSet", "Compute", "GetAndRefresh", "GetOrSet", "GetOrCompute", "SetDefault|SetForever"}
+			for v := range vn {
+				for m := range mn {
 					is = append(is, eng.Instance{Name: fmt.Sprintf("C09/Cache/%s/%s", vn[v], mn[m]), Pkg: "cache", Func: "VxH_C09_ctor", Args: []int64{int64(v), int64(m)}, Cfg: eng.Config{DefaultUnwind: 6, SmallTables: 1}})
 				}
 			}
@@ -486,6 +514,12 @@ func init() {
 			is = append(is, withOf(cs)...)
 			return is
 		},
+		Thorough: func() []eng.Instance {
+			is := stalled("C16/Map", "VxH_Map_stalled", []int64{1, 1, 1, 3})
+			is = append(is, stalled("C16/Map(chain2)", "VxH_Map_stalled", []int64{1, 2, 1, 3})...)
+			is = append(is, stalled("C16/MapOf", "VxH_MapOf_stalled", []int64{1, 1, 1, 3, 3})...)
+			return is
+		},
 	})
 }
 
@@ -527,6 +561,18 @@ func init() {
 					slots := 2
 					is = append(is, eng.Instance{Name: fmt.Sprintf("C10/MapOf[%s]/step/%s", kn, mapOps[op]), Pkg: "xsync", Func: "VxH_C10_step",
 						Args: []int64{int64(k), int64(op), int64(slots)}, Cfg: eng.Config{DefaultUnwind: 8}})
+				}
+			}
+			is = append(is, eng.Instance{Name: "C10/MapOf[*int]/pointee-change", Pkg: "xsync", Func: "VxH_C10_pointee", Cfg: eng.Config{DefaultUnwind: 8}})
+			return is
+		},
+		Thorough: func() []eng.Instance {
+			var is []eng.Instance
+			kinds := []string{"struct{int8;int64}", "nested-struct", "bool", "int8", "*int", "string"}
+			for k, kn := range kinds {
+				for _, op := range []int{0, 1, 2, 3, 4, 5, 6, 7, 9} {
+					is = append(is, eng.Instance{Name: fmt.Sprintf("C10/MapOf[%s]/step/%s", kn, mapOps[op]), Pkg: "xsync", Func: "VxH_C10_step",
+						Args: []int64{int64(k), int64(op), 3}, Cfg: eng.Config{DefaultUnwind: 8}})
 				}
 			}
 			is = append(is, eng.Instance{Name: "C10/MapOf[*int]/pointee-change", Pkg: "xsync", Func: "VxH_C10_pointee", Cfg: eng.Config{DefaultUnwind: 8}})
